@@ -4,7 +4,7 @@ package main
 
 // The tie of MiniJS STATEMENTS (coq/Model/MiniJS.v: js_exec) to V8: random statements of the subset of
 // C04_gen_correct_partial_stmt (raw text, print with directives, let in both forms, if / elseif / else, switch with case
-// groups and default, nested blocks) are given to the model (op minijs_stmt), which returns the JavaScript
+// groups and default, foreach / ifempty with index / isFirst / isLast of the enclosing loops, nested blocks) are given to the model (op minijs_stmt), which returns the JavaScript
 // text the generator model writes for them (sprint (sgen s)), the text the subset semantics writes (sout)
 // and the variables after MiniJS executed the statement (js_exec) from an empty buffer; node runs the same
 // text inside a function that declares the same variables (soyutils.js loaded), and must end with the same
@@ -35,11 +35,28 @@ func (g *cexprGen) blk(d int) string {
 }
 
 func (g *cexprGen) stmt(d int) string {
-	k := g.r.Intn(10)
+	k := g.r.Intn(12)
 	if d <= 0 && k >= 6 {
 		k = g.r.Intn(6)
 	}
 	switch {
+	case k >= 10:
+		// {foreach $v in <list>}..{ifempty}..{/foreach}: the list outside the loop's scope, the variable an integer inside
+		v := g.r.Pick([]string{"v", "w", "x", "v"})
+		lst := g.r.Pick([]string{"(cvar " + sx("l") + ")", "(cvar " + sx("a") + " (key 0 " + sx("l") + "))", "(cvar " + sx("e") + ")", "(cvar " + sx("l") + ")",
+			"(cvar " + sx("a") + " (key 1 " + sx("l") + "))"})
+		if g.r.Chance(6) {
+			lst = g.r.Pick([]string{"(cvar " + sx("u") + ")", "(cvar " + sx("a") + ")", "(cvar " + sx("s") + ")", "(cnull)"}) // not a list: outside the subset
+		}
+		ni, nl := len(g.intVars), len(g.loops)
+		g.intVars, g.loops = append(g.intVars, v), append(g.loops, v)
+		body := g.blk(d - 1)
+		g.intVars, g.loops = g.intVars[:ni], g.loops[:nl]
+		hasie, ie := "0", "(blk)"
+		if g.r.Chance(50) {
+			hasie, ie = "1", g.blk(d-1)
+		}
+		return "(sfor " + sx(v) + " " + lst + " " + body + " " + hasie + " " + ie + ")"
 	case k < 2:
 		return "(sraw " + sx(g.r.Pick([]string{"A", "b c", "it's", "<p>", "x\ny", "\"q\"", "</script>", "\\", ""})) + ")"
 	case k < 4:
@@ -118,7 +135,7 @@ const c04StmtScopeSexp = "(scope (x78 x785f33) (x73 x735f3132))" // x -> x_3, s 
 const c04StmtCounter = "12"
 const c04StmtJSVars = "var x_3 = 4; var s_12 = \"hi'x\";"
 
-var c04StmtData = map[string]interface{}{"a": map[string]interface{}{"b": 5, "l": []interface{}{10, 20}, "n": nil, "s": "zz"}, "f": true, "l": []interface{}{3, 4}}
+var c04StmtData = map[string]interface{}{"a": map[string]interface{}{"b": 5, "l": []interface{}{10, 20}, "n": nil, "s": "zz"}, "e": []interface{}{}, "f": true, "l": []interface{}{3, 4}}
 var c04StmtIJ = map[string]interface{}{"n": 6}
 
 func c04StmtTie(e *env, n int) {
@@ -129,7 +146,7 @@ func c04StmtTie(e *env, n int) {
 		mode := 1 + g.r.Intn(2)
 		modes = append(modes, mode)
 		// a block, so that sequences and lets followed by uses occur at the top; now and then a variable that was never bound
-		g.intVars, g.strVars = nil, nil
+		g.intVars, g.strVars, g.loops = nil, nil, nil
 		if g.r.Chance(5) {
 			g.intVars = []string{"w"}
 		}
@@ -217,7 +234,7 @@ func c04StmtTie(e *env, n int) {
 				cls = "outside-subset"
 			}
 			e.res.Count("stmt:"+it.req, it.sout != "none", "minijs-stmt:"+cls+":"+it.cls)
-			for _, f := range []string{"var ", " = '';", "} else if (", "} else {", "switch (", "default:", "case "} {
+			for _, f := range []string{"var ", " = '';", "} else if (", "} else {", "switch (", "default:", "case ", "for (var ", ".length;", " > 0) {", " == 0)", " - 1)"} {
 				if strings.Contains(it.text, f) {
 					e.res.Histogram["minijs-stmt:has:"+strings.TrimSpace(f)]++
 				}
